@@ -334,6 +334,8 @@ def gen_fix_world(rng: Rng, feats: Optional[dict] = None) -> dict:
     elif sup_cfg == "warn_prs":
         root_core["warnings"] = "PRS"
     cfg_sections: dict[str, dict] = {"sqlfluff": root_core}
+    if rng.chance(0.15):
+        cfg_sections["sqlfluff:rules:references.consistent"] = {"force_enable": "True"}
     if templater == "placeholder":
         cfg_sections["sqlfluff:templater:placeholder"] = {"param_style": "colon"}
     limits: dict[str, Any] = {}
@@ -354,6 +356,8 @@ def gen_fix_world(rng: Rng, feats: Optional[dict] = None) -> dict:
                     sec["rules"] = rng.choice(["LT01,LT12,CP01", "core", "LT02,LT01"])
                 if rng.chance(0.3):
                     sec["max_line_length"] = rng.choice([30, 50, 200])
+                if rng.chance(0.15):
+                    sec["ignore_templated_areas"] = "False"
                 if limits and rng.chance(0.5):
                     sec.update(limits.get("nested", {}))
                 if sec:
